@@ -4,7 +4,7 @@
    cpu_times_percent, Process.cpu_percent), specification: C07/Spec.v (kernel printer
    k_stat of /proc/stat, tick-level formulas).  Seconds and percentages are exact
    rationals; float rounding is outside the model (compared within one rounding step). *)
-From PV Require Import C07.SpecLife C07.ProofsParse C07.ProofsArith C07.ProofsState C07.ProofsScript C07.ProofsLife C07.SpecBlock C07.ProofsBlock C07.ProofsNested C07.ProofsSub Gen.C07_Tables.
+From PV Require Import C07.SpecLife C07.ProofsParse C07.ProofsArith C07.ProofsState C07.ProofsScript C07.ProofsLife C07.SpecBlock C07.ProofsBlock C07.ProofsNested C07.ProofsSub Gen.C07_Tables C07.PyGen C07.ProofsGen.
 Local Open Scope Q_scope.
 
 (* ---- cpu_times(): every /proc/stat the kernel can print (any CPUs, nf >= 7 decimal counters
@@ -383,3 +383,53 @@ Theorem C07_overriding_subclass_outside_blocks : forall ov clk l st,
   no_blocks l = true -> pcts (pb_run_sub true ov clk st l) = pcts (pb_run clk st l).
 Proof. exact overriding_sub_outside_blocks. Qed.
 Print Assumptions C07_overriding_subclass_outside_blocks.
+
+(* ==== Round 2: the arithmetic TRANSLATED from the source under test (Gen/C07_Tables.v, generated on every py_run by
+   props/_c07_gen.py from the ast of psutil/__init__.py; language and interpreter: C07/PyGen.v) computes the
+   functions of the hand-written model, for all inputs *)
+
+(* _cpu_tot_time(times) = sum(times) - guest - guest_nice, an absent field counting 0 *)
+Theorem C07_gen_tot_time : forall l,
+  run_fn no_calls c07_tot_prog "times" {| t_names := scputimes_names; t_vals := l |} = Val (tot_time l).
+Proof. exact gen_tot_time. Qed.
+Print Assumptions C07_gen_tot_time.
+
+(* _cpu_busy_time(times) = _cpu_tot_time(times) - idle - iowait (the helper call goes to the translated _cpu_tot_time) *)
+Theorem C07_gen_busy_time : forall l, (4 <= length l)%nat ->
+  run_fn c07_call1 c07_busy_prog "times" {| t_names := scputimes_names; t_vals := l |} = Val (busy_time l).
+Proof. exact gen_busy_time. Qed.
+Print Assumptions C07_gen_busy_time.
+
+(* the loop body of _cpu_times_deltas on one field: max(0, t2.f - t1.f) *)
+Theorem C07_gen_delta_body : forall a b,
+  py_run no_calls c07_delta_body_prog (env_ab a b) = Val (VNum (Qmax 0 (b - a))).
+Proof. exact gen_delta_body. Qed.
+Print Assumptions C07_gen_delta_body.
+
+(* the model's deltas are that translated body applied field by field *)
+Theorem C07_gen_deltas_fieldwise : forall t1 t2,
+  map (fun ab => py_run no_calls c07_delta_body_prog (env_ab (fst ab) (snd ab))) (combine t1 t2)
+  = map (fun q => Val (VNum q)) (deltas t1 t2).
+Proof. exact gen_deltas_fieldwise. Qed.
+Print Assumptions C07_gen_deltas_fieldwise.
+
+(* cpu_percent.calculate(t1, t2): the translated closure (deltas, the two helpers, busy/all*100,
+   ZeroDivisionError -> 0.0, round) is the model's calc_percent *)
+Theorem C07_gen_calc_percent : forall t1 t2, (4 <= length (deltas t1 t2))%nat ->
+  py_run c07_call2 c07_percent_calc_prog (env_t t1 t2) = Val (VNum (calc_percent t1 t2)).
+Proof. exact gen_calc_percent. Qed.
+Print Assumptions C07_gen_calc_percent.
+
+(* cpu_times_percent.calculate(t1, t2): scale = 100/max(1, all_delta), per field min(max(0, fd*scale), 100), in field order *)
+Theorem C07_gen_calc_times_percent : forall t1 t2,
+  py_run c07_call2 c07_times_percent_calc_prog (env_t t1 t2) = Val (VTup (calc_times_percent t1 t2)).
+Proof. exact gen_calc_times_percent. Qed.
+Print Assumptions C07_gen_calc_times_percent.
+
+(* the tail of Process.cpu_percent: num_cpus = cpu_count() or 1, delta_proc, delta_time, the division with its
+   ZeroDivisionError handler and the num_cpus factor give the answer of the model's proc_finish (n = cpu_count(), None as 0) *)
+Theorem C07_gen_proc_percent : forall n st1 pt1 st2 pt2, (0 <= n)%Z ->
+  py_run no_calls c07_proc_percent_prog (env_p n st1 pt1 st2 pt2)
+  = omap VNum (snd (proc_finish st1 pt1 st2 pt2 (ncpu_eff n))).
+Proof. exact gen_proc_percent. Qed.
+Print Assumptions C07_gen_proc_percent.
